@@ -524,6 +524,8 @@ def run_check(chk, argv=None):
         os.makedirs(os.path.join(VERIF, 'evidence'), exist_ok=True)
         with open(os.path.join(VERIF, 'evidence', f'{chk.PROP}.json'), 'w') as fh:
             json.dump(ev, fh, indent=1, default=str)
+    if hasattr(chk, 'cleanup'):
+        chk.cleanup()
     print(f'{chk.PROP} {tier}: {total["runs"]} simulated runs, {len(total["digests"])} distinct event '
           f'logs, {total["steps"]} steps, {wall:.1f}s wall, rc={rc}')
     return rc
